@@ -288,10 +288,10 @@ def _modint_classes(ck):
 
 def run(ck):
     m = ck.repo.mod(SC)
-    ck.rule("R1", "each constant-folding branch applies the reference operation with the reference signedness, guards and mask", floor=17)
-    ck.rule("R2", "folded values are re-masked to the operand width; comparison/parity results are one bit", floor=4)
-    ck.rule("R3", "every division/remainder folding returns the unfolded expression for a zero divisor", floor=6)
-    ck.rule("R4", "every operator accepted by simp_flag_cst has a branch in simp_flags", floor=20)
+    ck.rule("R1", "each constant-folding branch applies the reference operation with the reference signedness, guards and mask", floor=9)
+    ck.rule("R2", "folded values are re-masked to the operand width; comparison/parity results are one bit", floor=2)
+    ck.rule("R3", "every division/remainder folding returns the unfolded expression for a zero divisor", floor=3)
+    ck.rule("R4", "every operator accepted by simp_flag_cst has a branch in simp_flags", floor=14)
     ck.rule("R5", "parity, zero counts, extensions and comparisons have the reference structure", floor=7)
 
     fn = m.func("simp_cst_propagation")
